@@ -74,6 +74,12 @@ def configs(ctx):
             cfg['objective'] = {'metrics': ['size', 'neg_size', 'label'][:rng.choice([2, 3])], 'multi': True}
             cfg['keep_n_best'] = 1
         out.append(cfg)
+    for j in range(ctx.budget(4, 30)):
+        out.append(optrun.collapse_config(rng, optimiser=['evo', 'surrogate', 'pop_random_mutation'][j % 3]))
+    for j in range(ctx.budget(4, 30)):
+        out.append(optrun.strict_rule_config(rng, optimiser=['evo', 'pop_random_mutation'][j % 2]))
+    for j in range(ctx.budget(4, 20)):
+        out.append(optrun.invalid_initial_config(rng))
     return out
 
 
